@@ -22,6 +22,7 @@ var registry = map[string]func() *check.Property{
 	"C13": C13,
 	"C14": C14,
 	"C15": C15,
+	"C16": C16,
 	"C17": C17,
 	"C18": C18,
 	"C19": C19,
@@ -49,6 +50,7 @@ var thoroughOps = map[string][]mutOp{
 	"C13": {mutDropLocksOf("all-but-subscriber"), mutUnsafeCtor},
 	"C14": {mutDropTeardown},
 	"C15": {mutDropWait},
+	"C16": {mutDropTeardown},
 }
 
 func ByID(id string) *check.Property {
